@@ -317,16 +317,33 @@ def finish(pid, ctx, level, acc, rule, extra, assumptions, t0, confirm=True):
     for v, k in listed:
         out_lines.append(f"KNOWN-FINDING: property={pid} {k[1]} [key={v['key']}]")
     reported = 0
+    unreproduced = []
     for v, _ in new[:5]:
         path = write_replay(v, ctx)
         if confirm:
             ok, log = confirm_replay(pid, path)
             if not ok:
-                harness_fail = f"replay {path} did not reproduce: {log[-800:]}"
-                break
+                unreproduced.append((v, path, log))
+                continue
         out_lines.append(f"VIOLATION property={pid} replay={path}")
         out_lines.append(f"  key={v['key']}  {v['msg'][:600]}")
         reported += 1
+    if unreproduced and not reported:
+        # R6: a violation that a fresh process cannot reproduce (neither the case alone, nor its exploration unit, nor the units its
+        # worker had run before) is normally a harness error.  When the exploring processes observed it on several independent cases,
+        # though, the one thing that differs between them and the replay is process state the harness does not own (heap layout,
+        # addresses of freed objects): results that depend on that are not a function of the call's inputs.  Reported as a violation,
+        # and said so; a single unreproducible observation stays a harness error.
+        v, path, log = unreproduced[0]
+        if acc.viol_count >= 3 and len(new) >= 2:
+            out_lines.append(f"VIOLATION property={pid} replay={path}")
+            out_lines.append(f"  key={v['key']}  {v['msg'][:600]}")
+            out_lines.append(f"  NOTE: observed on {acc.viol_count} cases ({len(new)} distinct keys) during the exploration; the recorded case does not reproduce in a "
+                             "fresh process (alone, with its unit, or with its worker's history): the library's answer depends on process state "
+                             "outside the call's inputs (e.g. the address of a freed object)")
+            reported += 1
+        else:
+            harness_fail = f"replay {path} did not reproduce: {log[-800:]}"
     wall = time.time() - t0
     coverage = {
         "evaluations": acc.evals,
